@@ -12,6 +12,17 @@ def envelope(ftype, channel, payload):
         b'\xce'
 
 
+_MO = None
+
+
+def _magic_octets():
+    global _MO
+    if _MO is None:
+        from . import magic
+        _MO = magic.pool().octets
+    return _MO
+
+
 def byte_replacements(data, rnd, values=8, max_positions=None):
     """Every position x `values` replacement bytes (all 255 others when
     values >= 255)."""
@@ -29,6 +40,10 @@ def byte_replacements(data, rnd, values=8, max_positions=None):
                     ord('A'), ord('F'), ord('S'), ord('V')}
             cand.discard(old)
             vs = rnd.sample(sorted(cand), min(values, len(cand)))
+            # octets that occur as constants in the tree under test
+            mo = [o for o in _magic_octets() if o != old and o not in vs]
+            if mo:
+                vs += rnd.sample(mo, min(2, len(mo)))
         for v in vs:
             b = bytearray(data)
             b[p] = v
